@@ -78,6 +78,21 @@ theorem monotone_in_L (sh : AllocShape) (base L L' : Nat) (hLL : L ≤ L') (evs 
 theorem payload_le_size (c : Consts) (v : Val) : v.payload c ≤ v.size c ∧ c.xvalue ≤ v.size c := by
   cases v <;> simp only [Val.payload, Val.size] <;> omega
 
+/-- a native container is accounted for at least one pointer per value it holds — whatever the number of hash buckets
+    its entries are spread over (a mapping of `len` entries in a single bucket still accounts `2 * len` pointers) -/
+theorem native_entries_accounted (c : Consts) (n : Native) : n.entries * c.rc ≤ n.dynSize c := by
+  cases n <;> simp only [Native.entries, Native.dynSize] <;> try omega
+  all_goals (simp only [Nat.add_mul, Nat.mul_assoc, Nat.two_mul]; try split) <;> omega
+
+/-- more collisions mean fewer buckets, and the accounted size of a mapping or set shrinks by the bucket headers only,
+    never by the entries -/
+theorem collisions_cost_headers_only (c : Consts) (b b' len : Nat) (hb : b ≤ b') :
+    (Native.mapping b' len).dynSize c - (Native.mapping b len).dynSize c = (b' - b) * c.vec ∧
+    (Native.set b' len).dynSize c - (Native.set b len).dynSize c = (b' - b) * c.rc := by
+  obtain ⟨d, rfl⟩ := Nat.exists_eq_add_of_le hb
+  simp only [Native.dynSize, Nat.add_mul, Nat.add_sub_cancel_left]
+  constructor <;> omega
+
 /-- the statements for the code as it is now -/
 theorem xray_balance (base : Nat) (limit : Option Nat) (hb : ∀ L, limit = some L → base ≤ L) (evs : List Ev) :
     (run allocShape (startAt base limit) evs).underflows = 0 ∧
